@@ -125,16 +125,18 @@ func c04r1(c *Check) {
 		}
 	}
 	// handlers: volatile reader buffers
-	type src struct{ pkgFn, recv, method, callee string }
-	for _, s := range []src{
-		{"input", "*Plain", "Handle", "(*bufio.Scanner).Bytes"},
-		{"input", "*Amqp", "consumeAMQP", "(*bufio.Reader).ReadLine"},
-	} {
-		fn := c.P.Func(s.pkgFn, s.recv, s.method)
-		n := 0
+	// every framing primitive of package input that returns a view of the reader's own buffer
+	volatile := map[string]bool{"(*bufio.Scanner).Bytes": true, "(*bufio.Reader).ReadLine": true, "(*bufio.Reader).ReadSlice": true}
+	n := 0
+	inputPkg := c.P.Pkg("input").Types
+	for _, fn := range c.P.Funcs {
+		if fnPkg(fn) != inputPkg {
+			continue
+		}
+		fn := fn
 		allInstrs(fn, func(in ssa.Instruction) {
 			call, ok := in.(*ssa.Call)
-			if !ok || calleeName(call.Common()) != s.callee {
+			if !ok || !volatile[calleeName(call.Common())] {
 				return
 			}
 			var v ssa.Value = call
@@ -148,7 +150,7 @@ func c04r1(c *Check) {
 			}
 			n++
 			bad := volatileUses(c, v)
-			key := FuncName(fn) + " volatile " + s.callee
+			key := FuncName(EnclosingDecl(fn)) + " volatile " + calleeName(call.Common())
 			if len(bad) > 0 {
 				var w []string
 				for _, b := range bad {
@@ -159,9 +161,9 @@ func c04r1(c *Check) {
 				c.Hold(key, c.At(in), "only passed to Dispatcher.Dispatch (and logging)")
 			}
 		})
-		if n == 0 {
-			anchorFail("%s: no call to %s", FuncName(fn), s.callee)
-		}
+	}
+	if n < 2 {
+		anchorFail("package input: %d calls to Scanner.Bytes / Reader.ReadLine found, the plain and AMQP handlers have one each", n)
 	}
 }
 
